@@ -34,6 +34,13 @@ def family():
     ok("pre:valid", "presigned GET inside its window", A.v4_presigned())
     ok("pre:valid-query", "presigned GET with extra query parameters", A.v4_presigned(pairs=[("response-content-type", "text/plain"), ("versionId", "v 1")]))
     ok("pre:valid-put", "presigned PUT", A.v4_presigned("PUT"))
+    ok("pre:header-repeated-desc", "repeated signed header, values in descending order",
+       A.v4_presigned(extra_headers=[("x-amz-meta-tag", "zulu"), ("x-amz-meta-tag", "alpha")]))
+    def swap_rep(rq):
+        i = [k for k, (n, v) in enumerate(rq["headers"]) if n == "x-amz-meta-tag"]
+        rq["headers"][i[0]], rq["headers"][i[1]] = rq["headers"][i[1]], rq["headers"][i[0]]
+    no("pre:alt-repeated-swapped", "values of a repeated signed header swapped after signing",
+       A.v4_presigned(extra_headers=[("x-amz-meta-tag", "alpha"), ("x-amz-meta-tag", "zulu")], mutate=swap_rep))
     ok("pre:skew-future-10min", "signing time 10 minutes in the future (inside the 15 minute skew)", A.v4_presigned(date_delta=600))
     ok("pre:near-expiry", "signed 50 minutes ago, expires after 1 hour", A.v4_presigned(date_delta=-3000, expires=3600))
     no("pre:expired", "signed 2 hours ago, expires after 1 minute", A.v4_presigned(date_delta=-7200, expires=60))
